@@ -29,6 +29,21 @@ func drive(o Obj, buf []byte, start int, cuts []int) (n int, e sipsp.ErrorHdr, c
 	return
 }
 
+// driveLate is drive with the end-of-input flag withheld until the last cut (late == true).
+func driveLate(o Obj, buf []byte, start int, cuts []int, late bool) (n int, e sipsp.ErrorHdr, cut int, pan string) {
+	lf, ok := o.(lateFlagger)
+	if !late || !ok || len(cuts) < 2 {
+		return drive(o, buf, start, cuts)
+	}
+	lf.setEndInput(false)
+	n, e, cut, pan = drive(o, buf, start, cuts[:len(cuts)-1])
+	lf.setEndInput(true)
+	if pan != "" || e != sipsp.ErrHdrMoreBytes {
+		return
+	}
+	return drive(o, buf, n, cuts[len(cuts)-1:])
+}
+
 // moreFacts checks the 'more' indicators of an object against its capacity.
 func moreFacts(o Obj, cfg Cfg) string {
 	switch x := o.(type) {
@@ -147,8 +162,13 @@ func CheckCapacityH(w *core.Worker, p *ParserDef, ample, small Cfg, buf []byte, 
 		}
 	}
 	// both runs follow the same cut schedule: only the capacity differs
-	na, ea, cuta, pana := drive(A, buf, 0, cuts)
-	ns, es, cuts2, pans := drive(S, buf, 0, cuts)
+	// (an end-of-input flag is given on the last call only: earlier calls do not see the end)
+	late := len(cuts) > 1 && p.EndInput(small)
+	na, ea, cuta, pana := driveLate(A, buf, 0, cuts, late)
+	ns, es, cuts2, pans := driveLate(S, buf, 0, cuts, late)
+	if late {
+		w.Inc("late_end_flag_runs")
+	}
 	w.Eval(2)
 	if pana != "" || pans != "" {
 		if pana != "" && pans != "" {
@@ -329,9 +349,9 @@ func RunC13(r *core.Run) {
 			small := a
 			small.ParamCap = pc
 			s.cuts = CutsRandom(s.cuts, rr, 0, len(in), rr.Intn(4))
-			if flags&sipsp.POptInputEndF != 0 {
+			if flags&sipsp.POptInputEndF != 0 && rr.Bool() {
 				s.cuts = append(s.cuts[:0], len(in)) // end-of-input mode: one call sees everything
-			}
+			} // otherwise the flag is withheld until the last call (CheckCapacityH)
 			var pre []byte
 			if pc > 0 && rr.Intn(3) == 0 {
 				// both lists were used before: another list abandoned somewhere, then Reset()
